@@ -24,6 +24,7 @@ static void parse_faults(const Reader &r, Bytes &plan, std::vector<Fault> &fault
   auto f = r.iv("faults");
   for (size_t j = 0; j + 3 <= f.size(); j += 3) faults.push_back(Fault{(int)f[j], (int)f[j + 1], (int)f[j + 2]});
 }
+static std::string scratch_dir();
 static void fill_plans(tp_plans &p, const Bytes &plan, const std::vector<Fault> &faults) {
   p.plan_len = (uint32_t)std::min<size_t>(plan.size(), TP_PLAN_MAX);
   memcpy(p.plan, plan.data(), p.plan_len);
@@ -96,7 +97,7 @@ static Verdict evaluate_pkt(const PktCase &c, const c16p_out &o) {
     nontrivial_cur();
     return Verdict::pass();
   }
-  if (o.ncb > C16P_MAX_CB && c.transport == 0) {
+  if (o.ncb > C16P_MAX_CB && c.transport != 1) {
     PBT_REQUIRE(o.wait_failed != 1, "a datagram was never handed to the callback (ceiling hit) while " << o.ncb << " other reports were made");
     PBT_REQUIRE(o.wait_failed != 2, "an armed idle task never reported its timeout");
   }
@@ -160,6 +161,9 @@ static Verdict evaluate_pkt(const PktCase &c, const c16p_out &o) {
       used = std::min<uint64_t>(size, used + n); off = std::min<uint64_t>(size, off + n); tr -= n;
       PBT_REQUIRE(cb.used == used && cb.offset == off && cb.tr_size == tr, tag << ": buffer cursors expected " << used << "/" << off << "/" << tr);
       PBT_REQUIRE(!cb.addr_null, tag << ": no peer address with a datagram");
+      if (c.transport == 2)  // two bound senders with paths of different length, datagram j comes from sender j & 1
+        PBT_REQUIRE(cb.addr_family == AF_UNIX && cb.addr_unix_sender == 1 + (j & 1), tag << ": datagram " << j << " was sent from the " << ((j & 1) ? "long" : "short")
+                                                                                             << "-path socket, the callback got " << (cb.addr_unix_sender == 1 ? "the short path" : cb.addr_unix_sender == 2 ? "the long path" : "another / a truncated address"));
       if (c.transport == 1)
         PBT_REQUIRE(cb.addr_family == AF_INET && cb.addr_port == o.peer_port && cb.addr_ip == 0x7f000001u,
                     tag << ": peer address family " << cb.addr_family << " port " << cb.addr_port << ", the sender is 127.0.0.1:" << o.peer_port);
@@ -198,7 +202,7 @@ static Verdict evaluate_pkt(const PktCase &c, const c16p_out &o) {
   if (n_trunc) label("datagram_truncated_to_window");
   if (n_zero_skip) label("zero_length_dropped_silently");
   if (n_zero_rep) label("zero_length_reported");
-  if (c.transport == 1) label("udp"); else label("unix_dgram");
+  if (c.transport == 1) label("udp"); else if (c.transport == 2) label("unix_dgram_two_bound_senders"); else label("unix_dgram");
   if (c.reset_policy == 2 && ndata >= 2) label("accumulating_window");
   if (c.off0 != 0) label("window_not_at_buffer_start");
   if (c.prequeue && ndata) label("queued_before_start");
@@ -213,6 +217,7 @@ static Verdict run_pkt(const PktCase &c) {
               "harness: case outside the generated domain");
   std::unique_ptr<c16p_scn> s(new c16p_scn());
   memset(s.get(), 0, sizeof(c16p_scn));
+  snprintf(s->pdir, sizeof(s->pdir), "%s", scratch_dir().c_str());
   s->transport = (uint8_t)c.transport; s->buf_size = (uint16_t)c.buf_size; s->used0 = (uint16_t)c.used0; s->off0 = (uint16_t)c.off0; s->tr0 = (uint16_t)c.tr0;
   s->reset_policy = (uint8_t)c.reset_policy; s->timeout_ms = (uint16_t)c.timeout_ms; s->close_on_destroy = (uint8_t)c.close_on_destroy;
   s->prequeue = (uint8_t)c.prequeue; s->ndgrams = (uint8_t)c.dg.size();
@@ -229,7 +234,7 @@ static Verdict run_pkt(const PktCase &c) {
 static rc::Gen<PktCase> genPkt() {
   return rc::gen::exec([]() {
     PktCase c;
-    c.transport = *rc::gen::weightedElement<int>({{3, 0}, {1, 1}});
+    c.transport = *rc::gen::weightedElement<int>({{3, 0}, {1, 1}, {2, 2}});
     c.buf_size = *rc::gen::element(16, 64, 100, 256, 512);
     int wk = *rc::gen::weightedElement<int>({{3, 0}, {1, 1}, {1, 2}});
     if (wk == 0) { c.used0 = 0; c.off0 = 0; c.tr0 = c.buf_size; }
